@@ -1,7 +1,7 @@
 (* C09 -- proofs for Shape/Extra.v: every statement is for all shapes / all bindings of the symbols. *)
 From Coq Require Import String ZArith List Bool Lia ZifyBool.
 Require Import OV.Shape.SymDim OV.Shape.SymDimProofs OV.Shape.PartialEval OV.Shape.PartialEvalProofs OV.Shape.Extra.
-Require Import OV.Shape.Materialize OV.Shape.MaterializeProofs.
+Require Import OV.Shape.Materialize OV.Shape.MaterializeProofs OV.Shape.Broadcast OV.Shape.BroadcastProofs.
 Import ListNotations.
 Open Scope Z_scope.
 Ltac Zify.zify_post_hook ::= Z.to_euclidean_division_equations.
@@ -511,3 +511,24 @@ Proof.
           | (exists [0; 1; 1; 1]; split; [reflexivity|]; split; [apply nonneg4; lia|]; vm_compute; discriminate)
           | (exists [1; 1; 1; 1]; split; [reflexivity|]; split; [apply nonneg4; lia|]; vm_compute; discriminate) ].
 Qed.
+
+(* ---- ranks do not depend on the binding; broadcast_keeps_rank -------------------------------------------------------------- *)
+Theorem rank_valuation_independent : forall rho s c, shape_denotes rho s c -> List.length c = List.length s.
+Proof. intros rho s c H. symmetry. exact (Forall2_len _ _ _ H). Qed.
+
+(* when the helper answers True, broadcasting `value` against a reference of rank >= 1 has the rank of the reference, at
+   every binding and for every runtime shape the annotations describe (an accepted broadcast) *)
+Theorem broadcast_keeps_rank_sound : forall sv sr, bkr_check (Some sv) (Some sr) = true -> (1 <= List.length sr)%nat ->
+  forall rho cv cr o, shape_denotes rho sv cv -> shape_denotes rho sr cr -> bcast cv cr = Some o ->
+  List.length o = List.length cr.
+Proof.
+  unfold bkr_check, bcast. intros sv sr H R rho cv cr o Hv Hr Ho.
+  destruct (rb (rev cv) (rev cr)) as [q|] eqn:E; [|discriminate]. simpl in Ho. inversion Ho; subst.
+  rewrite rev_length, (rb_length _ _ _ E), !rev_length.
+  rewrite (rank_valuation_independent _ _ _ Hv), (rank_valuation_independent _ _ _ Hr).
+  apply orb_true_iff in H as [H|H]; apply Nat.leb_le in H; lia.
+Qed.
+
+(* without a reference shape only rank <= 1 is accepted *)
+Theorem broadcast_keeps_rank_no_reference : forall sv, bkr_check (Some sv) None = true -> (List.length sv <= 1)%nat.
+Proof. unfold bkr_check. intros sv H. rewrite orb_false_r in H. apply Nat.leb_le. assumption. Qed.
